@@ -26,6 +26,7 @@ INF = 1000000
 def from_(t, alias=""): return {"op": "from", "t": t, "alias": alias}
 def item(e, n=""): return {"n": n, "e": E(e)}
 def select(*items): return {"op": "select", "items": [i if "e" in i and "n" in i else item(i) for i in items]}
+def exclude(*cols): return {"op": "exclude", "cols": [E(c) for c in cols]}
 def derive(*items): return {"op": "derive", "items": list(items)}
 def filter_(e): return {"op": "filter", "e": e}
 def sort(*keys): return {"op": "sort", "keys": [{"d": d, "e": E(e)} for d, e in keys]}
